@@ -593,6 +593,37 @@ def exact_division_case(draw):
 
 
 @st.composite
+def many_columns_case(draw):
+    """60-130 columns; rows that use MANY of them, with small integer ranges next to booleans, so that the number of row
+    combinations is large but still below 2^63 (3^k * 2^m); points are drawn (nothing can be enumerated)"""
+    nc = draw(st.sampled_from([60, 62, 63, 64, 65, 80, 100, 130]))
+    k3 = draw(st.integers(0, 14))
+    bounds = [(0, 2) if j < k3 else (0, 1) for j in range(nc)]
+    if draw(st.integers(0, 3)) == 0:
+        bounds[nc - 1] = draw(st.sampled_from([(-20000, 20000), (-3, 3), (0, 4)]))
+    order = list(draw(st.permutations(range(nc))))
+    bounds = [bounds[j] for j in order]
+    rows = []
+    for _ in range(draw(st.integers(1, 3))):
+        used = draw(st.sampled_from([nc, nc, nc // 2, 40, 5]))
+        a = [0] * nc
+        for j in list(draw(st.permutations(range(nc))))[:used]:
+            a[j] = draw(st.sampled_from([1, 1, -1, 2]))
+        import math
+        # keep the true count below 2^63 (the statement's proviso for the count)
+        while math.prod((hi - lo + 1) for c_, (lo, hi) in zip(a, bounds) if c_) >= 2 ** 62:
+            j = next(j for j in range(nc) if a[j])
+            a[j] = 0
+        rows.append([draw(st.integers(-3, 5))] + a)
+    ids = ["c%03d" % j for j in range(nc)]
+    wit = [draw(st.sampled_from([lo, hi])) for lo, hi in bounds]
+    n = draw(st.integers(6, 10))
+    strat = st.tuples(*[S.near([x], lo, hi) for x, (lo, hi) in zip(wit, bounds)])
+    pts = [list(wit)] + [list(p_) for p_ in draw(st.lists(strat, min_size=n, max_size=n))]
+    return {"m": rows, "vars": [[i, lo, hi] for i, (lo, hi) in zip(ids, bounds)], "index": None, "guard": 4096, "points": pts}
+
+
+@st.composite
 def sparse_block_case(draw):
     """a LARGE sparse system (12-20 rows x 56-72 columns, i.e. >= 1000 entries, <= ~5% non-zero) whose rows use pairwise
     disjoint sets of 1-3 columns, so that the exact solution set is the product of small per-row solution sets"""
